@@ -10,6 +10,9 @@ CHECKS = {
  "C10": dict(cat="other", engine="mirsym", tech="bounded symbolic execution of the MIR of the text report writer and reader over byte-list strings, z3 validity per token-class shape; native replay through the real writer/reader",
              text="For file names of <= 2 tokens over 12 byte classes (3 over 4) the real write_as_text is executed symbolically, its emitted path / base-dir line bytes are fed to the symbolic execution of read_paths and of the base-dir handling in read_header, and z3 decides that the value read equals the value written and that cuts of the last path line are rejected. The command line is C17's join/split. JSON (serde_json), regexes and chrono are outside the encoding.",
              note="Trusted: MIR front end, string summaries incl. the stfu8 model (validated natively in C17), the model of `^# Base dir: (.*)`; counterexamples are replayed natively.", ref="DESIGN.md §3 C10"),
+ "C12": dict(cat="other", engine="mirsym", tech="bounded symbolic execution of rustc MIR with z3 validity queries (cache key/get/put/open, hasher cache protocol); CLI replay with --cache",
+             text="Kernel-level: z3 decides on the symbolic execution of HashCache::{key,get,put,open} and FileHasher::{hash_file,hash_transformed} (sled as an uninterpreted map, stat/clock accessors as pure functions) that a hit requires equal millisecond mtime and length and returns the stored pair, that entries are stored under (file id, chunk) in a tree named after hash function and transform, and that the hashers store exactly what they computed. The end-to-end statement follows under the property's proviso.",
+             note="Trusted: MIR front end + summaries, z3, sled as a map. Durability / interrupted runs and inode reuse within one millisecond are outside.", ref="DESIGN.md §3 C12"),
  "C17": dict(cat="other", engine="mirsym", tech="bounded symbolic execution of the MIR of arg::quote/split over byte-list strings (symbolic bytes, concrete length), z3 validity per token-class shape; native translator validation; bash replay",
              text="For every argument built from <= 2 tokens over 17 byte classes and 3 tokens over 8 classes (thorough: more), with the concrete bytes chosen by the solver inside each class, z3 decides on the symbolic execution of the real quote / split state machine that split(quote(x)) == [x] and that a reference bash decoder returns x. Bounded: longer arguments are outside the claim; the stfu8 crate is a validated reference model.",
              note="Trusted: MIR front end, string summaries (lib/strsum.py) incl. the stfu8 model and the bash word model - both checked natively on every run (1055 concrete inputs; every counterexample replayed with the real functions and real bash).", ref="DESIGN.md §3 C17"),
